@@ -108,9 +108,10 @@ class BorrowV:
 
 
 class MapV:
-    __slots__ = ('d',)   # key(str) -> (keyval, Cell)
-    def __init__(self): self.d = {}
-    def __repr__(self): return f'map{list(self.d)}'
+    """HashMap<String, V> as an association list [(key RStr, Cell)]; keys may hold symbolic characters"""
+    __slots__ = ('e',)
+    def __init__(self): self.e = []
+    def __repr__(self): return f'map{[k.concrete() for k, _ in self.e]}'
 
 
 class IterV:
